@@ -27,7 +27,7 @@ RULE = ("the malformed stream: every documented class of invalid input instantia
         "constructors and, inside random circuits at a random position across two partitions, to partition_circuit_qubits, partition_problem, cut_gates, find_cuts, "
         "next to the same requests with the expression fully bound; deterministic family (oracle only): dictionary-form reconstruction over 2-3 partitions "
         "with different numbers of commuting groups, results dictionary in every key order, counts correct / off in one partition / interchanged between two; "
-        "deterministic family (oracle on every case): ccx/cswap/ccz/rccx/c3x/rcccx at any position of a circuit with every distribution of its arguments over partitions (one partition = valid; first / middle / last argument alone elsewhere; first and last together against the middle; three partitions) through partition_circuit_qubits, partition_problem and (always refused) cut_gates; deterministic family (oracle on every case): expand_observables with observables of every width 1..n+2 for original circuits of n = 2..6 qubits (only width n accepted); compared: error enum (ValueError / accepted) and, on refusal, deep snapshots of the arguments")
+        "deterministic family (oracle on every case): ccx/cswap/ccz/rccx/c3x/rcccx at any position of a circuit with every distribution of its arguments over partitions (one partition = valid; first / middle / last argument alone elsewhere; first and last together against the middle; three partitions) through partition_circuit_qubits, partition_problem and (always refused) cut_gates; deterministic family (oracle on every case): expand_observables with observables of every width 1..n+2 for original circuits of n = 2..6 qubits (only width n accepted); deterministic family (oracle only): observables of width -2/-1/0/+1/+2/+5 relative to the circuit (or to ONE partition) -- identities only, a single identity, identity next to Z strings, random letters -- through generate_cutting_experiments in both calling forms and partition_problem with derived (omitted / None) and explicit partition labels, on block circuits joined by TwoQubitQPDGates (only the matching width accepted); compared: error enum (ValueError / accepted) and, on refusal, deep snapshots of the arguments")
 ASSUMPTIONS = ["'without modifying the arguments' is a runtime statement: checked by deep snapshots before/after every refused call",
                "partition / search / decomposition refusals reuse the models of C10, C07, C02, C13, C17 (delegated cases)"]
 
@@ -192,6 +192,73 @@ def _family_expand_widths():
                               "cls": "expand_width", "always_oracle": True})
 
 
+OBSW_ENTRIES = ["generate_single", "generate_dict", "pp_auto", "pp_explicit"]
+OBSW_CONTENTS = ["identity", "one_identity", "mixed", "random"]
+
+
+def _family_obs_widths():
+    """Deterministic family (seed independent, oracle only): the observable size mismatch at every entry point that takes observables next
+    to a circuit, in every calling form -- generate_cutting_experiments(QuantumCircuit, PauliList), generate_cutting_experiments(dict, dict)
+    with the observables of ONE partition (any of them) of the wrong width, partition_problem with the labels derived from the circuit
+    (partition_labels omitted / None; blocks joined by TwoQubitQPDGates) and with explicit labels -- for widths one or two less, one, two
+    or five more than the circuit / partition has, and whatever the observables consist of (identities only, a single identity, an identity
+    next to Z strings, random letters).  The same requests at the right width are valid and have to be served."""
+    import random
+    r = random.Random(180919)
+    shapes = [[1, 1], [2, 1], [1, 2], [2, 2], [3, 2], [1, 2, 1], [2, 1, 2], [3, 1, 1]]
+    t = 0
+    for entry in OBSW_ENTRIES:
+        for content in OBSW_CONTENTS:
+            for delta in (-2, -1, 0, 1, 2, 5):
+                t += 1
+                if delta == 0 and (t // 6) % 2:
+                    continue                      # half of the valid twins
+                sizes = shapes[(t * 5 + len(entry)) % len(shapes)]
+                which = r.randrange(len(sizes))
+                base = sizes[which] if entry == "generate_dict" else sum(sizes)
+                if base + delta < 1:
+                    sizes = [3, 2]
+                    which = 0
+                    base = 3 if entry == "generate_dict" else 5
+                yield ("validate", {"what": "obs_width", "entry": entry, "sizes": sizes, "which": which, "delta": delta, "width": base + delta,
+                                    "content": content, "count": 1 if content == "one_identity" else r.randint(2, 3),
+                                    "cut_gates": [r.choice(["cx", "cz", "rzz"]) for _ in sizes[1:]],
+                                    "labels_form": ("omitted", "none")[t % 2] if entry == "pp_auto" else "explicit",
+                                    "num_samples": ("inf", 5, 50)[t % 3], "rseed": r.randrange(10 ** 6),
+                                    "oracle_only": True, "always_oracle": True})
+
+
+def _obsw_objs(payload):
+    """(circuit with TwoQubitQPDGates between the blocks, one label per qubit, observable labels of the requested width and content)"""
+    import random
+    from qiskit.circuit import QuantumCircuit
+    from qiskit_addon_cutting.qpd import QPDBasis, TwoQubitQPDGate
+    r = random.Random(payload["rseed"])
+    sizes = payload["sizes"]
+    n = sum(sizes)
+    starts = [sum(sizes[:b]) for b in range(len(sizes))]
+    qc = QuantumCircuit(n)
+    labels = []
+    for b, sz in enumerate(sizes):
+        labels += [b] * sz
+        qs = list(range(starts[b], starts[b] + sz))
+        for q in qs:
+            qc.ry(r.choice([0.4, 1.1, 2.3]), q)
+        for a, c in zip(qs, qs[1:]):
+            qc.cx(a, c)
+    for b, g in enumerate(payload["cut_gates"]):
+        op = canon.mk_op(g, [0.3] if g == "rzz" else [])
+        qc.append(TwoQubitQPDGate(QPDBasis.from_instruction(op), label=f"cut_{g}"), [starts[b] + r.randrange(sizes[b]), starts[b + 1]])
+    w, k, content = payload["width"], payload["count"], payload["content"]
+    if content in ("identity", "one_identity"):
+        labs = ["I" * w] * k
+    elif content == "mixed":
+        labs = ["I" * w] + ["".join(r.choice("IZ") for _ in range(w - 1)) + "Z" for _ in range(k - 1)]
+    else:
+        labs = ["".join(r.choice("IXYZ") for _ in range(w - 1)) + r.choice("XYZ") for _ in range(k)]
+    return qc, labels, labs
+
+
 BIG_GATES = [("ccx", 3), ("cswap", 3), ("ccz", 3), ("rccx", 3), ("c3x", 4), ("rcccx", 4)]
 # partition of the ARGUMENTS of the wide gate (first ... last): which of them is the odd one out / how many partitions it touches
 BIG_PATTERNS = {3: ["AAA", "AAB", "ABA", "BAA", "ABC", "BAB"], 4: ["AAAA", "AAAB", "AABA", "ABAA", "BAAA", "ABBA", "AABB", "ABAB", "ABCA", "ACBB"]}
@@ -256,6 +323,7 @@ def cases(rng, tier):
     yield from _family_expand_widths()
     yield from _family_result_counts()
     yield from _family_unbound_angles()
+    yield from _family_obs_widths()
     N = 40 if tier == "quick" else 400
     # partition keys of results and observables: strict superset, strict subset, renamed, equal (in any order)
     for ko, kr in (([0, 1], [0, 1, 9]), ([0, 1, 2], [0, 1]), ([0, 1], [0, 7]), ([2, 0, 1], [1, 2, 0]), ([0], [0, 3]), ([0, 4], [4])):
@@ -586,6 +654,42 @@ def run_real(kind, payload):
                 return {"error": "ValueError", "mutated": True}
             raise
         return {"ok": "accepted"}
+    if w == "obs_width":
+        from qiskit.quantum_info import PauliList
+        from qiskit_addon_cutting import partition_problem, generate_cutting_experiments
+        qc, labels, labs = _obsw_objs(payload)
+        entry = payload["entry"]
+        ns = math.inf if payload["num_samples"] == "inf" else payload["num_samples"]
+        if entry == "generate_dict":
+            # a well-formed separated problem (explicit labels, observables of the right width), then the observables of one partition replaced
+            prob = partition_problem(qc, labels, observables=PauliList(["Z" * qc.num_qubits] * payload["count"]))
+            circuits = dict(prob.subcircuits)
+            obs = dict(prob.subobservables)
+            obs[payload["which"]] = PauliList(labs)
+        else:
+            circuits = qc
+            obs = PauliList(labs)
+
+        def snap():
+            cs = circuits if isinstance(circuits, dict) else {"": circuits}
+            os_ = obs if isinstance(obs, dict) else {"": obs}
+            return ([(repr(k_), json.dumps(canon.snapshot(v), sort_keys=True, default=str)) for k_, v in cs.items()],
+                    [(repr(k_), v.to_labels()) for k_, v in os_.items()], repr(labels))
+        before = snap()
+        try:
+            if entry in ("generate_single", "generate_dict"):
+                generate_cutting_experiments(circuits, obs, ns)
+            elif payload["labels_form"] == "omitted":
+                partition_problem(qc, observables=obs)
+            elif payload["labels_form"] == "none":
+                partition_problem(qc, None, obs)
+            else:
+                partition_problem(qc, labels, obs)
+        except ValueError:
+            if snap() != before:
+                return {"error": "ValueError", "mutated": True}
+            raise
+        return {"ok": "accepted"}
     if w == "basis_id":
         from qiskit_addon_cutting.qpd import QPDBasis, TwoQubitQPDGate, SingleQubitQPDGate
         b = QPDBasis.from_instruction(canon.mk_op(payload["gate"], [0.7] if payload["gate"] == "rzz" else []))
@@ -794,6 +898,9 @@ def _expected_invalid(kind, payload):
     if w == "reconstruct_counts":
         # partition i has len(letters) qubit-wise commuting groups by construction
         return any(c != payload["ncoeff"] * len(payload["parts"][i]["letters"]) for i, c in zip(payload["res_order"], payload["counts"]))
+    if w == "obs_width":
+        # the observables act on another number of qubits than the circuit (the partition) they are to be evaluated on
+        return payload["delta"] != 0
     if w == "basis_id":
         i = payload["id"]
         return i is not None and not (0 <= i < payload["nmaps"])
@@ -829,6 +936,22 @@ def oracle(kind, payload):
             return f"{ctx}: the mismatched result counts ({payload['how']}) were not refused with ValueError: {str(real)[:160]}"
         if not exp and "error" in real:
             return f"{ctx}: a request with the right number of results in every partition raised {real['error']}"
+        return None
+    if kind == "validate" and payload.get("what") == "obs_width":
+        sizes = payload["sizes"]
+        form = {"generate_single": "generate_cutting_experiments(QuantumCircuit, PauliList, %s)" % payload["num_samples"],
+                "generate_dict": "generate_cutting_experiments(dict, dict, %s)" % payload["num_samples"],
+                "pp_auto": "partition_problem with partition_labels " + ("omitted" if payload["labels_form"] == "omitted" else "None"),
+                "pp_explicit": "partition_problem with explicit partition_labels"}[payload["entry"]]
+        _, _, labs = _obsw_objs(payload)
+        target = (f"partition {payload['which']} ({sizes[payload['which']]} qubit(s))" if payload["entry"] == "generate_dict"
+                  else f"the {sum(sizes)}-qubit circuit")
+        ctx = (f"{form}: circuit of blocks {sizes} joined by TwoQubitQPDGates {payload['cut_gates']}; observables {labs} "
+               f"({payload['width']} qubit(s), {payload['content']}) for {target}")
+        if exp and real.get("error") != "ValueError":
+            return f"{ctx}: the observable size mismatch was not refused with ValueError: {'accepted, a result was returned' if 'ok' in real else str(real)[:160]}"
+        if not exp and "error" in real:
+            return f"{ctx}: observables of the right width, but the request raised {real['error']}"
         return None
     if kind == "big":
         b = payload["big"]
